@@ -86,6 +86,10 @@ structure Params where
   fromIso : Str → Option (N ⊕ T)
   /-- the value with the sub-millisecond part cut off, in a fixed-offset zone -/
   truncMs : T → T
+  /-- the aware values that survive `fromisoformat(isoformat(·))`: all, except that CPython's
+  `fromisoformat` turns a non-zero UTC offset of less than one second into UTC (see
+  `Model/PodsDt.lean`, `subSecondOffset`) -/
+  isoOk : T → Bool
   /-- `helpers.repair_html`; `none` = it raises -/
   repair : Str → Option Str
   /-- `os.getenv("CAPELLAMBSE_XHTML") == "1"` -/
@@ -436,8 +440,9 @@ structure Params.Lawful (P : Params) : Prop where
   zero_isZero : P.fIsZero P.fZero = true
   /-- `float(i) == 0.0` iff `i == 0` -/
   ofInt_zero : ∀ i x, P.fOfInt i = some x → P.fIsZero x = decide (i = 0)
-  /-- `fromisoformat(isoformat(t, ms))` is `t` cut to milliseconds -/
-  iso_rt : ∀ t, P.fromIso (P.iso t) = some (.inr (P.truncMs t))
+  /-- `fromisoformat(isoformat(t, ms))` is `t` cut to milliseconds (for the values `isoOk` admits) -/
+  iso_rt : ∀ t, P.isoOk t = true → P.fromIso (P.iso t) = some (.inr (P.truncMs t))
+  trunc_ok : ∀ t, P.isoOk t = true → P.isoOk (P.truncMs t) = true
   iso_shape : ∀ t, IsoShape (P.iso t)
   iso_xml : ∀ t, xmlOk (P.iso t) = true
   trunc_idem : ∀ t, P.truncMs (P.truncMs t) = P.truncMs t
@@ -474,8 +479,8 @@ def valid (P : Params) (d : Desc) (v : PyVal P) : Bool :=
   | .float, .float (.fin _) => true
   | .float, .int i => (P.fOfInt i).isSome
   | .float, .bool b => (P.fOfInt (if b then 1 else 0)).isSome
-  | .datetime, .aware _ => true
-  | .datetime, .naive n => (P.localize n).isSome
+  | .datetime, .aware t => P.isoOk t
+  | .datetime, .naive n => match P.localize n with | some t => P.isoOk t | none => false
   | .enum e _, .member c n x => decide (c = e.name) && decide (e.byName n = some x)
   | .enum e _, .str s => (e.byName s).isSome
   | .selector, .selector r => xmlOk r
